@@ -1,9 +1,11 @@
 """Replay a stored violation (exact reproduction) or recompute run digests.
 
   python -m mlsim.replay <replay.json>
-     exit 1 + VIOLATION line iff the same signature AND the same run digest are
-     reproduced; exit 0 if the violation is gone; exit 2 if the run no longer
-     reproduces exactly (digest differs while the violation persists).
+     exit 1 + VIOLATION line iff the stored violation signature is reproduced
+     (and says whether the run digest - the hash of the complete event log -
+     matches the stored one, i.e. whether the replay is exact; with
+     VERIF_REPLAY_STRICT=1 a digest mismatch is exit 2); exit 0 if the
+     violation is gone.
   python -m mlsim.replay --digests <ID> <tier> i,j,k
      prints {"i": digest, ...} for the given run indices of $VERIF_SEED.
 """
@@ -49,7 +51,8 @@ def main(argv):
   if rep.get("digest") and r["digest"] != rep["digest"]:
     print("  note: run digest differs from the stored one (%s vs %s): the code "
           "under test changed or replay is not exact" % (r["digest"], rep["digest"]))
-    return 1 if os.environ.get("VERIF_REPLAY_LENIENT") else 2
+    return 2 if os.environ.get("VERIF_REPLAY_STRICT") else 1
+  print("  exact replay: run digest %s matches the stored one" % r["digest"])
   return 1
 
 
